@@ -32,3 +32,18 @@ check("C20", "exploration", "deterministic cluster simulation with Byzantine ref
 check("C18", "exploration", "deterministic cluster simulation: independent recomputation of every closed round on every node, cross-node agreement, restart validator",
   "Seeded cluster runs with bursts, reordering and crash/restart; every closed round on every node is recomputed from the documented commitment and compared with the stored record, the live final round and the other nodes. The equal-timestamp tie-break is not reachable at system level.",
   _r1note, "DESIGN.md section 8 C18")
+check("C09", "exploration", "deterministic cluster simulation with finalization injection (valid and forged quorum certificates), independent ed25519 verifier on every snapshot written",
+  "All history of a run is manufactured by the simulator (it holds every key) and delivered through the finalized-bundle + finalization messages with families of certificate variants, duplicated and reordered, before and after restarts; an independent verifier judges every WriteSnapshot on every node; valid certificates must be accepted everywhere once faults stop.",
+  _r1note + " Membership is static within a run (genesis members, runs with more than 7 nodes stay outside the node-operation window).", "DESIGN.md section 8 C09")
+check("C19", "exploration", "deterministic cluster simulation with finalization injection at adversarial timestamps; round-content invariants after every write",
+  "Validly certified snapshots are injected at timestamps clustered around the round gap and day boundaries, with equal timestamps and re-used transactions, duplicated and reordered; every stored and live round is checked after every write and in a final sweep; forbidden candidates must be stored nowhere; closing a round must not panic.",
+  _r1note, "DESIGN.md section 8 C19")
+check("C01", "exploration", "deterministic cluster simulation with an adversarial client and Byzantine peer bundles; by-construction and independent math/big conservation oracle at every admission point",
+  "Ledgers grown by real consensus, then honest and conservation-forged transactions through the RPC path and as unauthenticated peer bundles under partitions, skew and crash/restart; every admission (RPC accept, queue-worker forward, durable persist, finalization) judged by construction and by recomputation from the admitting node's own records. Input space is sampled through the generators only.",
+  _r1note, "DESIGN.md section 8 C01")
+check("C02", "exploration", "deterministic cluster simulation with an adversarial client; by-construction and independent crypto/ed25519 authorization oracle at every admission point",
+  "As C01 with authorization forgeries (non-owner, below threshold, empty maps, index out of range, flipped bit, payload changed after signing, swapped maps, aggregate anomalies); per-input maps re-verified with crypto/ed25519 against the admitting node's stored key lists; aggregate signatures judged by construction.",
+  _r1note, "DESIGN.md section 8 C02")
+check("C05", "exploration", "deterministic cluster simulation: structure-aware transaction shapes pushed through the unauthenticated peer bundle path and the RPC path; panic tripwire on every node step",
+  "30 structure-aware shapes plus the C01/C02 forgeries validated by the real background queue worker, RPC admission and snapshot validation over ledgers with outputs of every materializable type; any panic escaping a node step is a violation. Two genuine defects were found and repaired (known_findings.json).",
+  _r1note, "DESIGN.md section 8 C05")
